@@ -29,10 +29,10 @@ import TvCore.Proofs.C02FlowRd
   loopback queue and socket go away), a duplicate delivery (the model records the panic "duplicate segment",
   as `StreamSocket::buffer` asserts), dropping the read half or the reader's socket.
 
-  `credits_conserved_partial`: NOT done is the induction over every `Step` — the fold of `deliverTo` /
-  `loStep` over a batch of handed-over envelopes (each single `receive` is covered by
-  `credits_conserved_arrival` for the direction's segments), link-control steps, and the assembly of the
-  per-call frame lemmas into one statement about `applyStep`.
+  The induction over every driver step and over runs is in `Props/C02FlowRun.lean` (`credits_conserved`,
+  `credits_conserved_run`, `never_overflows_run`; state predicate `Estab`, excluded steps `StepOk`), a concrete
+  run satisfying its hypotheses in `Props/C02FlowEx.lean`, and the finding that the no-sharing part of `Estab`
+  is not an invariant of `Reach` (F-C02-2, stale halves after pair reuse) in `Props/C02Stale.lean`.
 -/
 namespace TV.C02
 open TV TV.World
